@@ -6,7 +6,7 @@ from functools import partial
 from multiprocessing import Pool
 from typing import Any
 
-from numpy import array, digitize, in1d, inf, isnan, linspace, quantile, sort, unique
+from numpy import array, digitize, in1d, inf, isnan, linspace, quantile, unique
 from pandas import DataFrame, Series
 
 from .base_discretizers import BaseDiscretizer, extend_docstring
@@ -144,8 +144,9 @@ def find_quantiles(
     list[float]
         _description_
     """
+    # sorting quantiles and removing duplicates (a value can be picked by several quantile points)
     return list(
-        sort(
+        unique(
             np_find_quantiles(
                 df_feature[~isnan(df_feature)],  # getting rid of missing values
                 q,
